@@ -13,9 +13,12 @@ TB_CODEC_ENC = [
     "Box<dyn MappingsEncoder> dispatch in create_encoder and the for_each driver loops of encode_mappings/get_map are outside the proof (rule D1 drops the trait)",
 ]
 
+from vx.witness import codec_witness, mixed_witness, replace_witness  # noqa: E402
+
 PLAN = {
     "C12": {
         "level": "proof",
+        "witness": codec_witness,
         "verus_units": ["codec_enc", "codec_dec", "codec_thm"],
         "technique": "contract-based deductive verification (Verus) of the real encode_vlq / encoders / MappingsDecoder::next, extracted mechanically each run, plus spec-level round-trip theorems over those contracts",
         "claim": "Unbounded proof: the real FullMappingsEncoder::encode / LinesOnlyMappingsEncoder::encode / encode_vlq equal the v3 writer spec "
@@ -32,7 +35,8 @@ PLAN = {
     },
     "C17": {
         "level": "proof",
-        "verus_units": ["codec_dec", "codec_enc"],
+        "witness": mixed_witness,
+        "verus_units": ["codec_dec", "codec_enc", "replace_splice"],
         "technique": "contract-based deductive verification (Verus): overflow/shift/index/termination obligations of the real decoder and encoders under a representation invariant",
         "claim": "Partial, unbounded proof: MappingsDecoder::next never overflows, shifts out of range, indexes out of bounds or diverges on any byte string "
                  "< 4 GiB for any number of calls (struct invariant preserved); encode_vlq and both encoders are panic-free under the C12 domain. "
@@ -45,6 +49,7 @@ PLAN = {
     },
     "C11": {
         "level": "proof",
+        "witness": codec_witness,
         "verus_units": ["codec_enc"],
         "technique": "contract-based deductive verification (Verus): wire-alphabet invariant on the real encoders, proved independently of the functional contract",
         "claim": "Partial (clause 4 of 5), unbounded proof: every byte either encoder appends is a base64-VLQ character, ',' or ';' (invariant all_wire on "
@@ -58,6 +63,7 @@ PLAN = {
     },
     "C19": {
         "level": "proof",
+        "witness": codec_witness,
         "verus_units": ["codec_enc"],
         "technique": "contract-based deductive verification (Verus): the unsafe call's safety precondition as a `requires` on its assume_specification, discharged from the wire-alphabet invariant",
         "claim": "Partial, unbounded proof: both String::from_utf8_unchecked call sites (encoder.rs drain x2) are reached only with ASCII bytes. "
@@ -67,5 +73,20 @@ PLAN = {
         "assumptions": ["fields < 2^30"],
         "not_covered": ["rope.rs get_unchecked (6 sites)", "WithIndices::substring get_unchecked", "lifetime-extending transmutes", "concurrent use"],
         "design_ref": "DESIGN.md §4/C19",
+    },
+    "C05": {
+        "level": "proof",
+        "witness": replace_witness,
+        "verus_units": ["replace_splice"],
+        "technique": "contract-based deductive verification (Verus) of the real ReplaceSource::source splice loop against the reference replacement model",
+        "claim": "Unbounded proof: for every inner text (UTF-8, < 4 GiB) and every replacement list with start <= end on char boundaries or beyond the end, "
+                 "the real ReplaceSource::source returns splice(inner, replacements in stable (start, end, enforce) order) - the property's reference model.",
+        "note": "sorted_replacement enters as an assumed contract (result = stable key order) until the Kani stage K1 lands; Cow/str indexing through 3 assume_specifications.",
+        "trusted_base": TB_VERUS + ["assume_specification: <str as Index<I>>::index (exposes vstd's own index_postcondition), <Cow<B> as Deref>::deref (uninterpreted function of the Cow), "
+                                    "<Cow<str> as From<String>>::from (holds that string)", "external_body: sorted_replacement with the stable-order contract",
+                                    "rules D2 D3 D5 F1 L1"],
+        "assumptions": ["inner.source() is a function of the inner object (trait-level spec view `text()`)", "inner text < 4 GiB", "sum of content lengths fits usize (capacity hint dropped by D3)"],
+        "not_covered": ["rope() (Rope code)", "history independence of the lazy sort flag until K1 lands"],
+        "design_ref": "DESIGN.md §4/C05",
     },
 }
